@@ -11,6 +11,7 @@
 #include <fcntl.h>
 #include <set>
 #include <sstream>
+#include <sys/time.h>
 #include <sys/wait.h>
 #include <unistd.h>
 
@@ -1558,6 +1559,60 @@ struct Exec {
     }
 
     // ---------------------------------------------------------------------
+    // generated text through a real compiler (syntax only): the parsers of
+    // emitted.hpp stand for the compiler in every run; in a sample of runs
+    // what they accept is also given to g++ or clang++
+
+    // 0: accepted, 1: rejected (first diagnostic in err), -1: no compiler
+    static int compile_text(const std::string& src, int which, std::string& err) {
+        char path[] = "/tmp/yosim-gen-XXXXXX.cpp";
+        int fd = mkstemps(path, 4);
+        if (fd < 0)
+            return -1;
+        ssize_t w = write(fd, src.data(), src.size());
+        (void)w;
+        close(fd);
+        int pfd[2];
+        if (pipe(pfd) != 0) {
+            unlink(path);
+            return -1;
+        }
+        fflush(stdout);
+        fflush(stderr);
+        pid_t pid = fork();
+        if (pid == 0) {
+            dup2(pfd[1], 2);
+            dup2(pfd[1], 1);
+            close(pfd[0]);
+            signal(SIGPROF, SIG_DFL);
+            struct itimerval off = {};
+            setitimer(ITIMER_PROF, &off, nullptr);
+            const char* cc = which == 2 ? "clang++" : "g++";
+            execlp(cc, cc, "-std=c++17", "-fsyntax-only", "-w", path, (char*)nullptr);
+            _exit(127);
+        }
+        close(pfd[1]);
+        std::string out;
+        char buf[1024];
+        ssize_t n;
+        while ((n = read(pfd[0], buf, sizeof buf)) > 0)
+            if (out.size() < 4000)
+                out.append(buf, (std::size_t)n);
+        close(pfd[0]);
+        int st = 0;
+        waitpid(pid, &st, 0);
+        unlink(path);
+        if (!WIFEXITED(st) || WEXITSTATUS(st) == 127)
+            return -1;
+        if (WEXITSTATUS(st) == 0)
+            return 0;
+        std::size_t p = out.find("error");
+        err = p == std::string::npos ? out.substr(0, 300)
+                                     : out.substr(p, 300);
+        return 1;
+    }
+
+    // ---------------------------------------------------------------------
     // C12: the generator's output "compiled in"
 
     void do_offsets(const Event& e) {
@@ -1643,6 +1698,38 @@ struct Exec {
                                 join(is) + "} strides {" + join(it) + "}",
                             d);
                     ops.set_offsets(slot, o.slots, o.strides);
+                }
+            }
+            if (e.compile) {
+                // declarations a program has in scope where it includes the
+                // generated header (the library's own are forward-declared)
+                std::string src =
+                    "#include <cstddef>\n#include <memory>\n"
+                    "namespace yorel { namespace yomm2 {\n"
+                    "template<class...> struct method;\n"
+                    "template<class> struct virtual_;\n"
+                    "template<class...> class virtual_ptr;\n"
+                    "namespace detail { template<class> struct static_offsets; }\n"
+                    "} }\n"
+                    "namespace ys { template<int> struct key; struct Obj;\n"
+                    "namespace pol { struct sofd; struct sofr; } }\n";
+                for (auto& text : texts)
+                    src += text;
+                std::string err;
+                int rc = compile_text(src, e.compile, err);
+                if (rc < 0)
+                    ++res.st.faults["compiler_unavailable"];
+                else
+                    ++res.st.faults[e.compile == 2 ? "offsets_text_compiled_clang"
+                                                   : "offsets_text_compiled_gcc"];
+                if (rc == 1) {
+                    J d = base_diag(s, L);
+                    d.set("compiler", e.compile == 2 ? "clang++" : "g++");
+                    d.set("diagnostic", err);
+                    return violate(
+                        "C12", "offsets-text", "rejected-by-compiler",
+                        "the compiler rejects the generated static offsets: " +
+                            err.substr(0, 160), d);
                 }
             }
             if (seen.size() != mv.size()) {
@@ -2039,6 +2126,37 @@ struct Exec {
             s.enc_epoch = s.epoch;
             s.enc_table_valid = false;
             ++res.st.faults["encoded"];
+            if (e.compile) {
+                // "source text that the supported compilers accept": suitable
+                // for inclusion in a function body, with the library's decoder
+                // and the policy visible
+                std::string src =
+                    "#include <cstddef>\n#include <cstdint>\n"
+                    "namespace yorel { namespace yomm2 {\n"
+                    "template<class P, class D> void decode_dispatch_data(D&) {}\n"
+                    "} }\n"
+                    "struct " + s.name + " {};\n"
+                    "void generated() {\n" + s.encoded + "\n}\n";
+                std::string err;
+                int rc = compile_text(src, e.compile, err);
+                if (rc < 0)
+                    ++res.st.faults["compiler_unavailable"];
+                else
+                    ++res.st.faults[e.compile == 2 ? "encoded_text_compiled_clang"
+                                                   : "encoded_text_compiled_gcc"];
+                if (rc == 1) {
+                    Lattice LE = make_lattice(plan, s.updated);
+                    J d = base_diag(s, LE);
+                    d.set("compiler", e.compile == 2 ? "clang++" : "g++");
+                    d.set("diagnostic", err);
+                    violate(
+                        "C13", "emitted-text", "rejected-by-compiler",
+                        "the compiler rejects the emitted dispatch data: " +
+                            err.substr(0, 160), d);
+                    if (stop)
+                        return;
+                }
+            }
         }
         {
             Lattice LU = make_lattice(plan, s.updated);
